@@ -23,7 +23,7 @@ def step_compare(ck, sim, ref, trunc=1, label='step', extra_assume=(), steps=1, 
         # does not yield 'the' ISA successor of an architectural state)
         known = []
         for n_, w_ in FW.items(): known.append((sim.off[n_], sim.off[n_] + w_))
-        known += [(sim.off['memory'], sim.off['memory'] + 4*sim.memwords), (sim.off['io'], sim.off['io'] + sim.io_size), (sim.off['out'], sim.off['out'] + 8),
+        known += [(sim.off['memory'], sim.off['memory'] + (8 if sim.heap_memory else 4*sim.memwords)), (sim.off['io'], sim.off['io'] + sim.io_size), (sim.off['out'], sim.off['out'] + 8),
                   (sim.off['debugInfo'], sim.off['debugInfo'] + 24), (sim.off['debugInfoMap'], sim.off['debugInfoMap'] + 48)]
         o_ = st.wobj(p.obj)
         for off_, (sz_, val_) in sorted(o_.cells.items()):
